@@ -1,0 +1,74 @@
+//! Verification hooks (feature `verif_hooks`, off by default). Add-only instrumentation:
+//! nothing here changes behaviour unless a verification harness sets one of the switches.
+
+use std::sync::atomic::{AtomicBool, AtomicUsize, Ordering};
+
+static BYTES_PER_UNIT: AtomicUsize = AtomicUsize::new(0);
+static LAST_PASSES: AtomicUsize = AtomicUsize::new(0);
+static FORCE_SCALAR: AtomicBool = AtomicBool::new(false);
+
+/// Override the number of bytes one unit of `memory_size` stands for in `filter_kmers`
+/// (0 = keep the crate's own 10^9).
+pub fn set_bytes_per_unit(b: usize) {
+    BYTES_PER_UNIT.store(b, Ordering::SeqCst);
+}
+
+pub(crate) fn max_mem(memory_size: usize, default: usize) -> usize {
+    match BYTES_PER_UNIT.load(Ordering::SeqCst) {
+        0 => default,
+        b => memory_size * b,
+    }
+}
+
+pub(crate) fn record_passes(n: usize) {
+    LAST_PASSES.store(n, Ordering::SeqCst);
+}
+
+/// Number of bucket passes made by the most recent `filter_kmers` call.
+pub fn last_passes() -> usize {
+    LAST_PASSES.load(Ordering::SeqCst)
+}
+
+/// Make `DnaString::from_acgt_bytes` take its scalar path even when AVX2 is available.
+pub fn set_force_scalar(v: bool) {
+    FORCE_SCALAR.store(v, Ordering::SeqCst);
+}
+
+pub(crate) fn force_scalar() -> bool {
+    FORCE_SCALAR.load(Ordering::SeqCst)
+}
+
+/// Is the vector path available on this machine?
+pub fn avx2_available() -> bool {
+    #[cfg(any(target_arch = "x86", target_arch = "x86_64"))]
+    {
+        return is_x86_feature_detected!("avx2");
+    }
+    #[allow(unreachable_code)]
+    false
+}
+
+/// Safe wrapper around the AVX2 kernel `convert_bases`: the 32 converted lanes and the validity flag.
+#[cfg(any(target_arch = "x86", target_arch = "x86_64"))]
+pub fn convert_bases(bytes: &[u8; 32]) -> Option<([u8; 32], bool)> {
+    if !is_x86_feature_detected!("avx2") {
+        return None;
+    }
+    unsafe {
+        let (v, ok) = crate::bitops_avx2::convert_bases(&bytes[..]);
+        let out: [u8; 32] = std::mem::transmute(v);
+        Some((out, ok))
+    }
+}
+
+/// Safe wrapper around the AVX2 kernel `pack_32_bases`.
+#[cfg(any(target_arch = "x86", target_arch = "x86_64"))]
+pub fn pack_32_bases(lanes: &[u8; 32]) -> Option<u64> {
+    if !is_x86_feature_detected!("avx2") {
+        return None;
+    }
+    unsafe {
+        let v: std::arch::x86_64::__m256i = std::mem::transmute(*lanes);
+        Some(crate::bitops_avx2::pack_32_bases(v))
+    }
+}
